@@ -70,7 +70,7 @@ def h_general_form(vc):
     vc.ensure("Plane(a, b, c, d): unit normal", SP.eq(SP.norm2(qn), 1))
     vc.ensure("Plane(a, b, c, d): normal is a positive multiple of (a, b, c)", And(SP.collinear(qn, n), SP.gtz(SP.dot(qn, n))))
     vc.ensure("Plane(a, b, c, d): its point satisfies the equation", SP.eq(SP.dot(n, qp), d))
-    if vc.symbolic:
+    if vc.symbolic and vc.log.get("normalized"):
         k = vc.log["normalized"][0][0]
         vc.hint("n.(x - p) expanded", SP.dot(SP.sub(x, qp), qn) == k * (SP.dot(n, x) - SP.dot(n, qp)))
     vc.ensure("Plane(a, b, c, d): x in plane <=> a x + b y + c z = d", Iff(SP.on_plane(x, qp, qn), SP.eq(SP.dot(n, x), d)))
